@@ -2,6 +2,7 @@ import EpdVerif.Table
 import EpdVerif.Scenario
 import EpdVerif.Pure
 import EpdVerif.Oracle.Pure
+import EpdVerif.Oracle.All
 /-!
 # epdmodel — runs the Lean model on scenario lines and compares it with the harness trace
 
@@ -144,6 +145,15 @@ partial def loop (hs ht : IO.FS.Handle) (cfg : Cfg) (n drift : Nat) : IO (Nat ×
       loop hs ht cfg (n + 1) (drift + 1)
     | some p, some ops, .ok impl => do
       let model := runOps p ops (mkEnv p sc) none
+      if !cfg.props.isEmpty then
+        let ai := Oracle.panelVerdicts cfg.f cfg.props p sc sc.ops ops impl model
+        for (pr, n) in ai.evals do
+          let fs := ai.fails.filter (·.1 == pr)
+          if fs.isEmpty then IO.println s!"V {sc.id} {pr} ok n={n}"
+          else for (_, ftxt) in fs.eraseDups do IO.println s!"V {sc.id} {pr} FAIL {ftxt}"
+        for o in ai.notes do IO.println s!"O {sc.id} {o}"
+        let am := Oracle.panelVerdicts cfg.f cfg.props p sc sc.ops ops model model
+        for (pr, ftxt) in am.fails.eraseDups do IO.println s!"VM {sc.id} {pr} FAIL {ftxt}"
       match compareOps model impl 0 with
       | none => do
         IO.println s!"C {sc.id} same"
@@ -158,6 +168,28 @@ def main (args : List String) : IO UInt32 := do
     IO.println s!"fnv {String.ofList (Nat.toDigits 16 (fnv1a "epd-waveshare".toUTF8.toList).toNat)}"
     IO.println s!"prng {hexOf (prngBytes 42 8)}"
     IO.println s!"pos {hexOf ((List.range 8).map fun i => posByte (i * 100))}"
+    return 0
+  | "table" :: rest => do
+    let f : Feat := { v2 := rest.contains "v2", alt := rest.contains "alt" }
+    for p in panels f do
+      let fam := match p.family with | .ssd => "ssd" | .uc => "uc" | .acep => "acep"
+      let raise := ",".intercalate ((Spec.raiseSet p.name p.family).map hexByte)
+      let supports (o : Op) : Bool := (p.prog p.init o).isSome
+      let opsS := [("wake", Op.wake), ("sleep", .sleep), ("disp", .disp), ("clear", .clear), ("wait", .wait),
+        ("bg", .bg 0), ("lut", .lut none), ("upd", .upd []), ("updisp", .updisp []), ("part", .part [] 0 0 8 8),
+        ("old", .old []), ("newf", .newf []), ("dispnew", .dispnew), ("updispnew", .updispnew []),
+        ("pold", .pold [] 0 0 8 8), ("pnew", .pnew [] 0 0 8 8), ("pclear", .pclear 0 0 8 8),
+        ("color", .color [] []), ("achro", .achro []), ("chro", .chro []), ("base", .base []),
+        ("refresh", .refresh .full), ("border", .border 0), ("part2", .part2 [] 0 0 8 8),
+        ("dpart", .dpart 0 0 8 8), ("pachro", .pachro [] 0 0 8 8), ("pchro", .pchro [] 0 0 8 8),
+        ("basedisp", .basedisp [] none), ("disppart", .disppart), ("7block", .sevenBlock)]
+      let impl (o : Op) : Bool := match p.prog p.init o with
+        | some [Act.panic] => false
+        | some [] => false
+        | some _ => true
+        | none => false
+      let sup := ",".intercalate ((opsS.filter fun (_, o) => supports o).map fun (n, o) => if impl o then n else n ++ "!")
+      IO.println s!"P {p.name} {p.width} {p.height} {fam} {if p.single then 1 else 0} {if p.busyLow then 1 else 0} {p.colors} {raise} {if Spec.busyLevel p.family then 1 else 0} {sup}"
     return 0
   | "check" :: sf :: tf :: rest => do
     let rec opt (k : String) : List String → Option String
